@@ -268,6 +268,12 @@ class Kernel:
                 if ko.of is not None and ko.of.term == k2.term:
                     return ko.of          # the key of the selected successor is the extremum itself (whatever the tie rule)
                 return k2
+            if ko is not None and ko.kind == "LAST" and ko.term == ("idx", ("v", self.slist), ("t",)):
+                # the loop variable itself, read after the loop: the successor the loop visited last
+                import copy as _copy
+                k2 = _copy.copy(ko)
+                k2.term = ("sf", ("t",), t[2])
+                return k2
             return None
         if t[0] == "res":
             lid, v = t[1], t[2]
@@ -433,27 +439,79 @@ class Kernel:
 
     def _argset_from_canonical(self, kf):
         """A comprehension already brought to [label | source, filter] whose filter is `key == max/min([seed] ++ keys)` with the keys
-        taken over the same source: the arg-set (two passes over the list instead of one)."""
+        taken over the same source: the arg-set (two passes over the list instead of one).  `max(keys) <= key` / `key <= min(keys)`
+        say the same.  Rounding may sit on the keys, around the extremum (monotone: the extremum of the rounded keys) and on the
+        compared value; when the extremum is taken over one precision of a quantity and membership is judged on another, the
+        arg-set carries that as `key_mismatch` (the list is empty or wrong whenever the two differ)."""
         flt = kf.filter
-        if kf.kind != "COMPR" or not isinstance(flt, tuple) or flt[0] != "cmp" or flt[1] != "==" or getattr(kf, "ckind", "list") != "list" or not kf.whole:
+        if kf.kind != "COMPR" or not isinstance(flt, tuple) or flt[0] != "cmp" or flt[1] not in ("==", "<=") or getattr(kf, "ckind", "list") != "list" or not kf.whole:
             return None
+
+        def unround(t):
+            if t[0] == "call" and t[1] == "round" and len(t[2]) == 2 and not t[3]:
+                return t[2][0], t[2][1]
+            return t, None
+
+        def is_ext(x):
+            return x[0] == "call" and x[1] in ("max", "min") and len(x[2]) == 1 and not [k for k, _ in x[3] if k != "default"]
         sides = (flt[2], flt[3])
-        ext = [x for x in sides if x[0] == "call" and x[1] in ("max", "min") and len(x[2]) == 1 and not [k for k, _ in x[3] if k != "default"]]
-        if len(ext) != 1:
+        cands = [(i, unround(x)) for i, x in enumerate(sides) if is_ext(unround(x)[0])]
+        if not cands:
+            # the extremum computed by a loop of its own (a helper's running minimum), compared with the key afterwards
+            for i, x in enumerate(sides):
+                x0, xr = unround(x)
+                if x0[0] == "res" and not mentions(x0, lambda y: y in (("e",), ("p",), ("t",))):
+                    ke = self.kfold(x0)
+                    if ke is not None and ke.kind == "EXT" and ke.source == kf.source and ke.filter == TRUE and ke.whole and not ke.has_break and not ke.band:
+                        cur, cur_round = unround(sides[1 - i])
+                        if flt[1] != "==":
+                            return None
+                        key, key_round = unround(ke.term)
+                        if xr is not None and key_round is not None:
+                            return None
+                        dk = self.canon_top(xr) if xr is not None else key_round
+                        dc = self.canon_top(cur_round) if cur_round is not None else None
+                        if key != cur:
+                            return None
+                        full = lambda d: key if d is None else simp(("call", "round", (key, d), ()))
+                        import copy as _copy
+                        of = _copy.copy(ke)
+                        of.term = full(dk)
+                        out = KFold(kind="ARGSET", of=of, label=kf.term, ties=True, init=("list", ()), source=kf.source, filter=TRUE, whole=True, loop=kf.loop,
+                                    via="filter by == <running %s>" % ke.sense)
+                        out.key_mismatch = None
+                        if dk != dc:
+                            out.key_mismatch = (full(dk), full(dc))
+                            of.term = full(dc)
+                        return out
+        if len(cands) != 1:
             return None
-        ext = ext[0]
-        cur = sides[0] if sides[1] == ext else sides[1]
+        i_ext, (ext, ext_round) = cands[0]
+        cur, cur_round = unround(sides[1 - i_ext])
+        if flt[1] == "<=" and not ((ext[1] == "max" and i_ext == 0) or (ext[1] == "min" and i_ext == 1)):
+            return None             # `key <= max(keys)` holds for every element: not a selection
         kle, extra = self._list_arg(ext[2][0])
-        if kle is None or kle[1] != TRUE or not kle[3] or len(extra) > 1 or kle[0] != kf.source or cur != kle[2]:
+        if kle is None or kle[1] != TRUE or not kle[3] or len(extra) > 1 or kle[0] != kf.source:
             return None
+        key, key_round = unround(kle[2])
+        if ext_round is not None and key_round is not None:
+            return None
+        dk = self.canon_top(ext_round) if ext_round is not None else key_round           # precision of the extremum
+        dc = self.canon_top(cur_round) if cur_round is not None else None                # precision of the compared value
+        if key != cur:
+            return None
+        full = lambda d: key if d is None else simp(("call", "round", (key, d), ()))
         kws = dict(ext[3])
         init = self.canon_top(kws["default"]) if "default" in kws else None
         if extra:
             init = self._seed_init(extra[0], kle[2], kf.source)
-        of = KFold(kind="EXT", sense=ext[1], strict=True, init=init, term=kle[2], source=kf.source, whole=True, loop=None, via="builtin " + ext[1])
+        of = KFold(kind="EXT", sense=ext[1], strict=True, init=init, term=full(dk), source=kf.source, whole=True, loop=None, via="builtin " + ext[1])
         out = KFold(kind="ARGSET", of=of, label=kf.term, ties=True, init=("list", ()), source=kf.source, filter=TRUE, whole=True, loop=kf.loop,
-                    via="filter by == %s(...)" % ext[1])
+                    via="filter by %s %s(...)" % (flt[1], ext[1]))
         out.key_mismatch = None
+        if dk != dc:
+            out.key_mismatch = (full(dk), full(dc))
+            of.term = full(dc)          # the actions are listed by this key ...
         return out
 
     def _src(self, loop):
